@@ -13,15 +13,34 @@
 //     -> ret=<r> end=<ret|stopped|illegal> regs=... cyc=... mem=...   | exit=<status>
 // dislen msp430 <addr hex> <bytes hex>
 //     -> len=<n> cyc=<cycles_min>    from the real disasm_msp430
-// simstep <cpu> <pc hex> <name=hex,...|-> <addr:hexbytes;...|->
-//     any simulator of cpu_list: two fresh objects, identical start, one step each;
-//     -> same ret=<r> fp=<fingerprint of dump_registers()+memory> | DIFF <what>
+// simstep <cpu> <pc hex> <name=hex,...|-> <addr:hexbytes;...|-> [break_io hex|default]
+//     any simulator of cpu_list: two fresh objects, identical start, one step each.  The two objects are
+//     allocated from memory pre-filled with DIFFERENT bytes (0x00 / 0xff / 0x01: three objects, see operator new below), so a data
+//     member that no constructor/reset initialises and that the step reads shows up as a difference.
+//     -> same ret=<r> fp=<fingerprint of dump_registers()+memory> top=<highest address of a non-zero cell that was
+//        not given, or -> | DIFF <what>
+//     break_io: omitted or `-` = 0xfffffff0 (never hit); `default` = leave the constructor's value; the step then runs in
+//     a forked child and `exit=<status>` is the answer if the simulator called exit().
+//     A sixth argument <n> makes each object execute n steps (stopping at the first that does not return 0).
 #include <sys/wait.h>
 #include <functional>
 #include <set>
 #include "simulate/Simulate.h"
 #include "simulate/msp430.h"
 #include "disasm/msp430.h"
+
+// Every `new` of the harness process is filled with nv_new_fill first (the simulators are created with plain
+// `new SimulateXxx(memory)`): an uninitialised data member then has a value the harness controls.
+static unsigned char nv_new_fill = 0x00;
+void *operator new(size_t n)
+{
+  void *p = malloc(n ? n : 1);
+  if (p == nullptr) { abort(); }
+  memset(p, nv_new_fill, n);
+  return p;
+}
+void operator delete(void *p) noexcept { free(p); }
+void operator delete(void *p, size_t) noexcept { free(p); }
 
 static std::string sim_dump_cells(Memory *memory, const std::set<uint32_t> &given)
 {
@@ -243,42 +262,85 @@ struct SimStepOut
   int ret;
   std::string dump;
   std::string mem;
+  long long top;
 };
 
 static bool simstep_once(CpuList *cpu, uint32_t pc,
                          const std::vector<std::pair<std::string, uint32_t> > &regs,
                          const std::vector<std::pair<uint32_t, std::string> > &runs,
-                         SimStepOut &out)
+                         SimStepOut &out, const std::string &bio, unsigned char fill, int steps)
 {
+  nv_new_fill = 0x00;
   Memory *memory = new Memory();
   memory->endian = cpu->default_endian;
-  std::set<uint32_t> given;
   for (auto &r : runs)
   {
     for (size_t i = 0; i < r.second.size(); i++) { memory->write8(r.first + i, (uint8_t)r.second[i]); }
   }
+  nv_new_fill = fill;
   Simulate *sim = cpu->simulate_init(memory);
+  nv_new_fill = 0x00;
   if (sim == nullptr) { delete memory; return false; }
-  sim->set_break_io(0xfffffff0);
+  if (bio.empty() || bio == "-") { sim->set_break_io(0xfffffff0); }
+  else if (bio != "default") { sim->set_break_io((int)strtoul(bio.c_str(), NULL, 16)); }
   sim->set_show(false);
   sim->set_clear(false);
   for (auto &r : regs) { sim->set_reg(r.first.c_str(), r.second); }
   sim->set_pc(pc);
   capture_take();
   sim->enable_step_mode();
-  out.ret = sim->run(-1, 1);
-  capture_take();
+  for (int n = 0; n < steps; n++)
+  {
+    out.ret = sim->run(-1, 1);
+    capture_take();
+    if (out.ret != 0) { break; }
+  }
   sim->dump_registers();
   out.dump = capture_take();
-  out.mem = sim_dump_cells(memory, given);
+  // memory: hash of (address, byte) over the non-zero cells in address order; top = highest non-zero cell outside the given runs
+  std::vector<MemoryPage *> pages;
+  for (MemoryPage *p = memory->pages; p != nullptr; p = p->next) { pages.push_back(p); }
+  std::sort(pages.begin(), pages.end(), [](MemoryPage *a, MemoryPage *b) { return a->address < b->address; });
+  uint64_t h = 1469598103934665603ULL;
+  out.top = -1;
+  for (MemoryPage *p : pages)
+  {
+    for (uint32_t off = 0; off < PAGE_SIZE; off++)
+    {
+      if (p->bin[off] == 0) { continue; }
+      uint32_t a = p->address + off;
+      for (int k = 0; k < 4; k++) { h ^= (a >> (8 * k)) & 0xff; h *= 1099511628211ULL; }
+      h ^= p->bin[off]; h *= 1099511628211ULL;
+      bool was_given = false;
+      for (auto &r : runs) { if (a >= r.first && (uint64_t)a < (uint64_t)r.first + r.second.size()) { was_given = true; break; } }
+      if (!was_given && (long long)a > out.top) { out.top = a; }
+    }
+  }
+  char hb[32];
+  snprintf(hb, sizeof(hb), "%016llx", (unsigned long long)h);
+  out.mem = hb;
   delete sim;
   delete memory;
   return true;
 }
 
+static std::string simstep_body(const std::vector<std::string> &args, const std::string &bio, int steps);
+
 static std::string cmd_simstep(const std::vector<std::string> &args)
 {
-  if (args.size() != 4) { return "bad-op"; }
+  if (args.size() < 4 || args.size() > 6) { return "bad-op"; }
+  int steps = args.size() == 6 ? atoi(args[5].c_str()) : 1;
+  if (args.size() >= 5 && args[4] != "-")
+  {
+    std::vector<std::string> four(args.begin(), args.begin() + 4);
+    std::string bio = args[4];
+    return sim_forked([&]() { return simstep_body(four, bio, steps); });
+  }
+  return simstep_body(args, "", steps);
+}
+
+static std::string simstep_body(const std::vector<std::string> &args, const std::string &bio, int steps)
+{
   CpuList *cpu = nullptr;
   for (int n = 0; cpu_list[n].name != NULL; n++)
   {
@@ -318,17 +380,21 @@ static std::string cmd_simstep(const std::vector<std::string> &args)
       i = j + 1;
     }
   }
-  SimStepOut a, b;
+  SimStepOut a, b, c;
   alarm(20);
-  bool ok = simstep_once(cpu, pc, regs, runs, a) && simstep_once(cpu, pc, regs, runs, b);
+  bool ok = simstep_once(cpu, pc, regs, runs, a, bio, 0x00, steps) && simstep_once(cpu, pc, regs, runs, b, bio, 0xff, steps) &&
+            simstep_once(cpu, pc, regs, runs, c, bio, 0x01, steps);
   alarm(0);
   if (!ok) { return "no-simulator"; }
   char buf[128];
+  if (a.ret == c.ret && a.dump == c.dump && a.mem == c.mem) { c = b; }      // report the 0x01 run if it differs, else the 0xff run
+  b = c;
   if (a.ret != b.ret) { snprintf(buf, sizeof(buf), "DIFF ret %d %d", a.ret, b.ret); return buf; }
   if (a.dump != b.dump) { return "DIFF registers " + tohex(a.dump.substr(0, 200)) + " " + tohex(b.dump.substr(0, 200)); }
   if (a.mem != b.mem) { return "DIFF memory " + a.mem.substr(0, 200) + " | " + b.mem.substr(0, 200); }
   uint64_t h = sim_fnv(sim_fnv(1469598103934665603ULL, a.dump), a.mem);
-  snprintf(buf, sizeof(buf), "same ret=%d fp=%016llx", a.ret, (unsigned long long)h);
+  if (a.top < 0) { snprintf(buf, sizeof(buf), "same ret=%d fp=%016llx top=-", a.ret, (unsigned long long)h); }
+  else { snprintf(buf, sizeof(buf), "same ret=%d fp=%016llx top=%llx", a.ret, (unsigned long long)h, a.top); }
   return buf;
 }
 
